@@ -119,6 +119,13 @@ type World struct {
 
 // NewWorld creates the scratch database of a run from the template. It does not open it.
 func NewWorld(r *Run) *World {
+	w := NewWorldKeepIgnore(r)
+	chaincfg.MainNetParams.HeadersToIgnore = nil
+	return w
+}
+
+// NewWorldKeepIgnore is NewWorld without resetting the forbidden-hash list (second world of the same run).
+func NewWorldKeepIgnore(r *Run) *World {
 	runCounter++
 	dir := filepath.Join(scratchDir, fmt.Sprintf("run%d", runCounter))
 	_ = os.RemoveAll(dir)
@@ -130,7 +137,6 @@ func NewWorld(r *Run) *World {
 	w.Cfg = baseConfig(w.DBPath)
 	w.Sniffer = &panicSniffer{}
 	w.Log = zerolog.New(w.Sniffer).Level(zerolog.ErrorLevel)
-	chaincfg.MainNetParams.HeadersToIgnore = nil
 	return w
 }
 
